@@ -16,6 +16,14 @@ LEVEL = 'exploration'
 FRESH = re.compile(rb'x[0-9]+__fresh')
 
 
+def canon_fresh(data):
+    """Fresh names replaced by the rank of their first occurrence."""
+    seen = {}
+    return FRESH.sub(
+        lambda m: b'x#%d__fresh' % seen.setdefault(m.group(0), len(seen)),
+        data)
+
+
 def make_case(r):
     kind = r.choice(['general', 'fresh', 'fresh', 'vars', 'rename', 'enum',
                      'cc-delay', 'fresh-parse-id'])
@@ -153,7 +161,7 @@ def run_case(res, base, case, r, idx):
     text, rules, opts, desc = case
     runs = []
     for k, v in enumerate(variants(r)):
-        cfg = {'monitors': ['write']}
+        cfg = {'monitors': ['write'], 'write_text': True}
         if v['inj']:
             cfg['delay'] = v['inj']
         wd = os.path.join(base, f'c{idx}_{k}')
@@ -181,7 +189,8 @@ def run_case(res, base, case, r, idx):
         chain = [e['bd'] for e in ws]
         fresh_seen = next((i for i, e in enumerate(ws)
                            if e.get('has_fresh')), None)
-        runs.append((v, chain, run.out_bytes, fresh_seen))
+        runs.append((v, chain, run.out_bytes, fresh_seen,
+                     [e.get('text') for e in ws]))
     ref = runs[0]
     res.count('cases')
     res.add_set('chain_lengths', len(ref[1]))
@@ -191,7 +200,7 @@ def run_case(res, base, case, r, idx):
             res.count('cases_with_parse_time_fresh_name_in_output')
     if len(ref[1]) >= 2:
         res.add_distinct(common.digest(text + repr(rules) + repr(opts)))
-    for v, chain, out, fresh_seen in runs[1:]:
+    for v, chain, out, fresh_seen, texts in runs[1:]:
         res.count('pairs_compared')
         if chain != ref[1] or out != ref[2]:
             # first differing write
@@ -211,6 +220,19 @@ def run_case(res, base, case, r, idx):
                    if a == b or after_fresh else 'nondeterministic-chain')
             if desc.get('kind') == 'fresh-parse-id':
                 key = 'nondeterministic-chain:fresh-name-of-untouched-node'
+            # The known mechanism changes the digits of fresh names and
+            # nothing else: at the first write that differs, the two files
+            # are then equal up to a *consistent* renaming of the fresh
+            # variables.  Equal only when the names are blanked out, but not
+            # under any renaming (two declarations in the other order, two
+            # uses exchanged) is another mechanism.
+            if d < len(texts) and d < len(ref[4]) and texts[d] is not None \
+                    and ref[4][d] is not None:
+                ta, tb = ref[4][d].encode(), texts[d].encode()
+                if FRESH.sub(b'x#__fresh', ta) == FRESH.sub(b'x#__fresh', tb) \
+                        and canon_fresh(ta) != canon_fresh(tb):
+                    key = ('nondeterministic-chain:'
+                           'fresh-names-not-a-consistent-renaming')
             w = dict(desc)
             w.update({'variant': v, 'reference_variant': ref[0],
                       'first_differing_write': d + 1,
